@@ -712,24 +712,20 @@ def slice_type_rule(ctx):
     if arm is None:
         ctx.violation("R18.6", "type_check:BVSlice", f["span"], "UNRECOGNISED: no BVSlice arm in type_check")
         return
-    errs = []
-    node = None
-    for n in walk(arm["body"]):
-        if n.get("k") == "if":
-            node = n
-            break
-    cur = node
-    ok_shape = cur is not None
-    while cur is not None and cur.get("k") == "if":
-        c = _norm_cmp(cur["cond"])
-        is_err = any(x.get("k") == "ctor" and callee(x).endswith("Result::Err") for x in walk(cur["then"]))
-        if c is None or not is_err:
-            ok_shape = False
-            break
-        errs.append(c)
-        cur = peel_block(cur["else"]) if "else" in cur else None
-    final_ok = cur is not None and any(x.get("k") == "ctor" and callee(x).endswith("Result::Ok") for x in walk(cur)) and anyshow(cur, "Type::BV(((hi-lo)+1))")
-    wdef = anyshow(arm["body"], "lete_width=e.get_type(ctx).expect_bv(")
-    ok = ok_shape and sorted(errs) == sorted(["hi>=e_width", "hi<lo"]) and final_ok and wdef
+    # the constraints the arm enforces, extracted as for T4 (if-chains, early rejections and lets are understood there)
+    from .. import typerules
+    from ..tables import binding_of
+    binds = {}
+    for alt, a in match_arms(m):
+        vp = variant_pat(alt)
+        if vp and vname(vp[0]) == "BVSlice" and a is arm:
+            for kk, sp in vp[1].items():
+                b = binding_of(sp)
+                if b:
+                    binds[b[1]] = kk
+    cons, result, names = typerules.arm_constraints(arm, binds)
+    errs = sorted(c[1] for c in cons if c[0] == "reject")
+    final_ok = result == ("BV", "((hi-lo)+1)")
+    ok = errs == sorted(["hi>=w(e)", "hi<lo"]) and final_ok and ("bv", "e") in cons
     ctx.inst("R18.6", "type_check:BVSlice:bounds", ok, arm["sp"], "type_check(BVSlice) rejects under %s and then returns %s; it must reject exactly hi >= width(e) and hi < lo and return BV(hi - lo + 1): an out-of-range slice would be accepted as well-typed" % (errs, "BV(hi-lo+1)" if final_ok else "?"),
              sample={"rejects_when": errs})
